@@ -43,6 +43,29 @@ fn c16_text_string_rt_1() {
     std::mem::forget(o);
 }
 
+/// ASCII only (the PDFDocEncoding branch): every one-character ASCII string, including the C0
+/// controls and DEL, round-trips.
+#[kani::proof]
+#[kani::unwind(6)]
+fn c16_text_string_ascii_1() {
+    let b: u8 = kani::any();
+    kani::assume(b < 0x80);
+    let buf = [b];
+    let s = match std::str::from_utf8(&buf) {
+        Ok(s) => s,
+        Err(_) => unreachable!(),
+    };
+    let o = text_string(s);
+    let d = decode_text_string(&o);
+    match &d {
+        Ok(t) => assert!(t.len() == 1 && t.as_bytes()[0] == b, "ASCII text string does not decode to the original character"),
+        Err(_) => panic!("text string produced by text_string() is rejected by decode_text_string()"),
+    }
+    kani::cover!(b == 9);
+    std::mem::forget(d);
+    std::mem::forget(o);
+}
+
 /// Two scalar values (mixes ASCII / BMP / astral, so the "all ASCII?" decision and surrogate pairs interact).
 #[kani::proof]
 #[kani::unwind(12)]
